@@ -48,19 +48,35 @@ def install_counter():
         setattr(cls, "rebuild", make(f))
 
 
-INNERMOST = {"x": g.X, "mlset": g.P("set1", (g.X,), ((0, "\n"),))}
+INNERMOST = {"x": g.X, "mlset": g.P("set1", (g.X,), ((0, "\n"),)), "x-nl": g.X}  # "x-nl": nested program on the next line at every level
 PERIOD2 = ["set1", "list1", "let", "lam", "lamf1", "call", "with", "assert", "if", "paren", "inheritfrom", "concat", "select"]
 
 
-def nest(chain, depth, inner):
-    """chain = [(construct, hole), ...] repeated cyclically to `depth` levels around `inner`."""
+def _gap_before_hole(c, h):
+    """Index of the (variable) gap in front of hole h of construct c, or None."""
+    elems, glued = g._elements(c)
+    for j, e in enumerate(elems):
+        if isinstance(e, tuple) and e[1] == h:
+            if j > 0 and (j - 1) not in glued:
+                return j - 1
+    return None
+
+
+def nest(chain, depth, inner, newline=False):
+    """chain = [(construct, hole), ...] repeated cyclically to `depth` levels around `inner`.
+    newline=True puts the nested program on the next line at every level."""
     p = inner
     for i in range(depth):
         c, h = chain[(depth - 1 - i) % len(chain)]
         n = g.n_holes(c)
         kids = [g.X] * n
         kids[h] = p
-        p = g.P(c, tuple(kids))
+        gaps = ()
+        if newline:
+            j = _gap_before_hole(c, h)
+            if j is not None:
+                gaps = ((j, "\n"),)
+        p = g.P(c, tuple(kids), gaps)
     return p
 
 
@@ -84,7 +100,7 @@ def measure(chain, iname, depth):
     """-> (calls | 'CAP' | 'INVALID' | exception name, seconds)"""
     from nix_manipulator import parse
 
-    prog = nest(chain, depth, INNERMOST[iname])
+    prog = nest(chain, depth, INNERMOST[iname], newline=iname.endswith("-nl"))
     text = g.render(prog)
     if obs.has_error(text):
         return "INVALID", 0.0, len(text)
@@ -153,16 +169,16 @@ def run(prop: str, tier: str) -> core.Report:
         shape = "invalid" if all(v == "INVALID" for v in vals.values()) else ("exponential" if cls == "exponential" else "polynomial")
         classes[shape] += 1
         if cls:
-            fl.append(core.Failure(prop="C20", sig=f"{cls}|{name}", cls=cls, case={"kind": "c20-growth", "chain": [list(x) for x in chain], "inner": iname, "depths": depths}, detail=f"family {name} ({g.render(nest(chain, 3, INNERMOST[iname]))!r} ...): {detail}", group=cls))
+            fl.append(core.Failure(prop="C20", sig=f"{cls}|{name}", cls=cls, case={"kind": "c20-growth", "chain": [list(x) for x in chain], "inner": iname, "depths": depths}, detail=f"family {name} ({g.render(nest(chain, 3, INNERMOST[iname], newline=iname.endswith('-nl')))!r} ...): {detail}", group=cls))
     n_meas = sum(len(v) for v in table.values())
     cov = dict(a.coverage)
     cov["evaluations"] = a.coverage["evaluations"] + n_meas
     cov["distinct_nontrivial"] = a.coverage["distinct_nontrivial"] + n_meas
-    cov["rule"] = a.coverage["rule"] + f" || growth: {len(fams)} nesting families (every composite construct nested in each of its own holes around 2 innermost programs; period-2 families over {len(PERIOD2)} constructs) x depths {depths}; measure = number of rebuild() invocations (deterministic), cap {CAP}"
+    cov["rule"] = a.coverage["rule"] + f" || growth: {len(fams)} nesting families (every composite construct nested in each of its own holes around 2 innermost programs, plus the same with the nested program on the next line at every level; period-2 families over {len(PERIOD2)} constructs) x depths {depths}; measure = number of rebuild() invocations (deterministic), cap {CAP}"
     cov["growth_families"] = len(fams)
     cov["growth_shapes"] = dict(classes)
     cov["growth_samples"] = {k: table[k] for k in list(sorted(table))[:: max(1, len(table) // 8)]}
-    cov["samples"] = list(a.coverage["samples"])[:4] + [g.render(nest(c, 4, INNERMOST[i])) for n, c, i in core.pick_samples(fams, 3)]
+    cov["samples"] = list(a.coverage["samples"])[:4] + [g.render(nest(c, 4, INNERMOST[i], newline=i.endswith("-nl"))) for n, c, i in core.pick_samples(fams, 3)]
     return core.Report(prop="C20", level="exploration", coverage=cov, failures=fl, assumptions=a.assumptions + ["growth is judged on the count of rebuild() invocations obtained by wrapping every rebuild method from the harness (wall time is reported, not judged)", "polynomial = calls(2d) <= 16 * calls(d) for the two largest measured pairs, and no case above the cap"])
 
 
